@@ -4,6 +4,7 @@ import NmVerif.Lemmas.LinalgViews
   Lemmas for the matmul part of C16: `shape_matmul` against NumPy's rule, the slices of `view::matmul`.
 -/
 namespace NmVerif
+open NmVerif.MB
 open Linalg
 
 @[simp] theorem take_len_sub_two (b : List Nat) (x y : Nat) : (b ++ [x, y]).take ((b ++ [x, y]).length - 2) = b := by
